@@ -117,7 +117,7 @@ def observe_project(item):
                 meta[k] = v if isinstance(v, str) else str(v)
         out[path] = {"list": docgrammar.tracer_seq(list(ent.doc_list)), "html": docgrammar.tracer_seq(htmltext), "meta": meta,
                      "zn_in_doc": bool(re.search(r"\bzn\d", " ".join(ent.doc_list) + " " + htmltext)), "raw": list(ent.doc_list)[:40],
-                     "marker_leak": MARKER_RE.findall(htmltext)[:3]}
+                     "marker_leak": MARKER_RE.findall(htmltext)[:3], "marktoks": docgrammar.MARKTOK_RE.findall("\n".join(ent.doc_list))}
     diags = [w for w in cap.warnings if "Error parsing" in w] + [l for l in cap.stdout.splitlines() if l.startswith("ERROR in file")]
     return {"docs": out, "diags": diags[:5], "mon": dict(MON), "warnings": [w for w in cap.warnings if "metadata" in w][:5]}
 
@@ -137,14 +137,30 @@ def case_project(arg):
         lay = layout.Layout(seed, plain=False, docstyle=docstyle, cont_p=0.1, comment_p=0.25, semi_p=0.0, **marks)
         for f in files:
             stmts = fgen.render_file(f, fgen.Style(seed + 1))
+            # sometimes a run of declarations lives in an INCLUDEd file (same marker style there)
+            irng = random.Random(seed * 3 + len(texts))
+            runs = [i for i in range(1, len(stmts) - 1) if all(x.kind == "code" and not x.label for x in stmts[i:i + 2])]
+            inc = None
+            if runs and irng.random() < 0.3:
+                i = irng.choice(runs)
+                j = i + 2
+                while j < len(stmts) and j - i < 4 and stmts[j].kind == "code" and not stmts[j].label and irng.random() < 0.5:
+                    j += 1
+                inc = (f"inc_{f.name}.inc", stmts[i:j], f"vfincmark{seed % 1000}=0")
+                stmts = stmts[:i] + [fgen.Stmt(inc[2])] + stmts[j:]
             text = lay.free(stmts)
+            if inc:
+                text = text.replace(inc[2], f"include '{inc[0]}'")
+                inc_text = lay.free(inc[1])
+                open(os.path.join(root, inc[0]), "w").write(inc_text)
+                texts[inc[0]] = inc_text
             texts[f.name] = text
             open(os.path.join(root, f.name + ".f90"), "w").write(text)
         settings = {k: v for k, v in marks.items()}
         st, r = core.run_alone(observe_project, {"root": root, "settings": settings}, timeout=180)
     finally:
         shutil.rmtree(base, ignore_errors=True)
-    kfb = {"docstyle": docstyle, "default_markers": marks == {}}
+    kfb = {"docstyle": docstyle, "default_markers": marks == {}, "include_file": any(k.endswith(".inc") for k in texts)}
     if st != "ok" or "error" in (r or {}):
         msg = (r or {}).get("error", str(r)) if st == "ok" else str(r)
         return {"viol": [{"kf": {"kind": "ford_failed" if st == "ok" else "harness_" + st, "error": msg[:50], **kfb}, "w": {"detail": str(r)[-1500:], "seed": seed, "files": texts, "arg": list(arg[:2]) + [marks]}}],
@@ -183,6 +199,10 @@ def case_project(arg):
         if got["meta"] != emeta or any(w.startswith("zm") for w in got["html"]):
             viol.append({"kf": {"kind": "metadata_mismatch", "entity": kind, **kfb},
                          "w": {"path": path, "expected": emeta, "observed": got["meta"], "shown_in_body": [w for w in got["html"] if w.startswith("zm")], "doc_list": got["raw"], "seed": seed, "files": texts, "arg": list(arg[:2]) + [marks]}})
+        emarks = docgrammar.MARKTOK_RE.findall(" ".join(rec["doc"]))
+        if sorted(got.get("marktoks", [])) != sorted(emarks):
+            viol.append({"kf": {"kind": "doc_text_not_verbatim", "what": "text that looks like a marker pair", **kfb},
+                         "w": {"path": path, "expected": emarks, "observed": got.get("marktoks"), "doc_list": got["raw"], "seed": seed, "arg": list(arg[:2]) + [marks]}})
         if got.get("marker_leak"):
             viol.append({"kf": {"kind": "note_marker_shown_as_text", "body_features": note_mechanism(got["raw"]), **kfb},
                          "w": {"path": path, "markers": got["marker_leak"], "doc_list": got["raw"], "seed": seed, "arg": list(arg[:2]) + [marks]}})
